@@ -179,3 +179,42 @@ Definition ns_all_taken : nsdict :=
 Lemma C04_no_prefix_witness :
   run_shapes BAlg (OptionLemmas.with_rns ns_all_taken base_rcfg) thr0 g_mixed = inr RERandom.
 Proof. vm_compute. reflexivity. Qed.
+
+(** *** condition (iii) is not needed in all_classes mode with a threshold <= 1
+    (binary64, fewer than 2^53 triples): every class of the profile then has an
+    instance, every instance has its class among the values of the
+    instantiation property, so each shape keeps that constraint (frequency
+    100 %) and [_clean_empty_shapes] -- the only place where a disjunction can
+    raise -- finds nothing to remove.  (With target classes a requested class
+    without instances yields an empty shape: (iii) stays.) *)
+From Shexer Require Import Proofs.Bin64Round.
+
+Theorem C04_run_total_all_classes : forall c thr g,
+  r_targets c = None -> wf_frac thr -> fle BAlg thr (fone BAlg) = true ->
+  (N.of_nat (List.length g) < 2 ^ 53)%N ->
+  typing_okb (r_tau c) g && forallb (sentinel_free (r_tau c)) g && prefix_free c = true ->
+  exists ns shapes, run_shapes BAlg c thr g = inl (ns, shapes).
+Proof. exact run_total_all_classes. Qed.
+Print Assumptions C04_run_total_all_classes.
+
+Theorem C04_run_shexc_total_all_classes : forall c thr g,
+  r_targets c = None -> wf_frac thr -> fle BAlg thr (fone BAlg) = true ->
+  (N.of_nat (List.length g) < 2 ^ 53)%N ->
+  typing_okb (r_tau c) g && forallb (sentinel_free (r_tau c)) g && prefix_free c &&
+  forallb (class_iri_ok (r_tau c)) g = true ->
+  exists text, run_shexc BAlg c thr g = inl text.
+Proof. exact run_shexc_total_all_classes. Qed.
+Print Assumptions C04_run_shexc_total_all_classes.
+
+(** non-vacuity: disjunctions enabled together with remove_empty_shapes *)
+Example C04_all_classes_nonvacuous :
+  let c := rwith_disable_or false base_rcfg in
+  options_ok c = false /\ r_targets c = None /\ wf_frac thr0 /\ fle BAlg thr0 (fone BAlg) = true /\
+  typing_okb (r_tau c) g_reftie_1 && forallb (sentinel_free (r_tau c)) g_reftie_1 && prefix_free c &&
+  forallb (class_iri_ok (r_tau c)) g_reftie_1 = true /\
+  exists text, run_shexc BAlg c thr0 g_reftie_1 = inl text.
+Proof.
+  cbv zeta. split; [reflexivity|]. split; [reflexivity|].
+  split; [vm_compute; split; [discriminate | reflexivity]|].
+  split; [vm_compute; reflexivity|]. split; [vm_compute; reflexivity|]. eexists. vm_compute. reflexivity.
+Qed.
